@@ -4,6 +4,7 @@ void harness(void) {
   HAVOC_BUFS;
   ND_SV(input);
   uint8_t set[32];
+  ND_FILL_U8(set, set, 32);
   char ref[3 * BUF_N + 1];
   size_t rn = ref_percent_encode(input, set, ref);
   _Bool any = 0;
